@@ -41,9 +41,11 @@ pub enum Use {
     ArgOfOther,
     ArgOfItself,
     InGenericParent,
+    /// `Par2<A, T> { a: A, f: S<T, N> }`: the argument is the parent's SECOND parameter (`_1`)
+    InGenericParent2,
     MapValue,
 }
-pub const USES: [Use; 13] = [
+pub const USES: [Use; 14] = [
     Use::Root,
     Use::NamedField,
     Use::UnnamedField,
@@ -56,6 +58,7 @@ pub const USES: [Use; 13] = [
     Use::ArgOfOther,
     Use::ArgOfItself,
     Use::InGenericParent,
+    Use::InGenericParent2,
     Use::MapValue,
 ];
 
@@ -131,6 +134,15 @@ impl SubstState {
                     named(vec![("f", self.s_ty(Ty::Param(0), n.clone())), ("t", Ty::Param(0))]),
                 ));
                 Ty::Named(host, vec![U16])
+            }
+            Use::InGenericParent2 => {
+                defs.push(Def::strukt(
+                    &["p", "h"],
+                    "Par2",
+                    &["A", "T"],
+                    named(vec![("a", Ty::Param(0)), ("f", self.s_ty(Ty::Param(1), n.clone())), ("t", Ty::Param(1))]),
+                ));
+                Ty::Named(host, vec![U16, U8])
             }
             _ => {
                 let f = match use_ {
@@ -358,7 +370,7 @@ pub fn check_state(st: &SubstState, ctx: &mut Ctx) {
                 }
                 if got != want {
                     ctx.violation(
-                        format!("C07/wrong-substitution/{}", if st.use_ == Some(Use::InGenericParent) { "in-generic-parent" } else { "resolve" }),
+                        format!("C07/wrong-substitution/{}", if matches!(st.use_, Some(Use::InGenericParent) | Some(Use::InGenericParent2)) { "in-generic-parent" } else { "resolve" }),
                         format!("resolve_type_path({id}) = `{got}`, reference substitution gives `{want}`"),
                         replay(),
                         size,
@@ -392,7 +404,7 @@ pub fn check_state(st: &SubstState, ctx: &mut Ctx) {
             let got = ty_str(&gf.ty);
             if got != squash(&want) {
                 ctx.violation(
-                    format!("C07/wrong-substitution/{}", if st.use_ == Some(Use::InGenericParent) { "in-generic-parent" } else { "field" }),
+                    format!("C07/wrong-substitution/{}", if matches!(st.use_, Some(Use::InGenericParent) | Some(Use::InGenericParent2)) { "in-generic-parent" } else { "field" }),
                     format!("field of {}: emitted `{got}`, reference substitution gives `{}`", def.name, squash(&want)),
                     replay(),
                     size,
